@@ -186,14 +186,17 @@ where
         }
 
         let mut interpolated_state = from.clone();
-        for i in 1..=num_steps {
+        for i in 1..num_steps {
             let t = i as f64 / num_steps as f64;
             space.interpolate(from, to, t, &mut interpolated_state);
             if !vc.is_valid(&interpolated_state) {
                 return false;
             }
         }
-        true
+
+        // The end point is checked as given: interpolating at t = 1 can differ from `to` in the
+        // last bit, and it is `to` itself that ends up in the tree / roadmap.
+        vc.is_valid(to)
     }
 }
 
